@@ -10,4 +10,4 @@ for c in "$@"; do
   echo "MUT $(basename $D) check=$c exit=$code"
   echo "$out" | grep -E "^(VIOLATION|KNOWN-FINDING|HARNESS-PROBLEM|  obligation)" | cut -c1-400 | head -6
 done
-git -C /repo worktree remove --force $W
+git -C /repo worktree remove --force $W; rm -rf /tmp/wt/out_$$
